@@ -335,6 +335,12 @@ done:
 // a hang), with exit status 4 when runs are still being started or steps still counted (a slow case: the step cap
 // bounds it, it is not a verdict). The parent finds the open case in the journal. The caller stores the start time
 // of each case in the returned value.
+// progressTick is called by harnesses that do not run inside the simulator (damage enumeration, sequential store
+// histories, parser histories) once per unit of work, so that the watchdog can tell a long case from a hung one.
+var ticks atomic.Int64
+
+func progressTick() { ticks.Add(1) }
+
 func startWatchdog() *atomic.Int64 {
 	var caseStart atomic.Int64
 	caseStart.Store(time.Now().UnixNano())
@@ -344,8 +350,8 @@ func startWatchdog() *atomic.Int64 {
 		lastChange := time.Now()
 		for {
 			time.Sleep(250 * time.Millisecond)
-			if r, s := sim.Progress(); r != lastRuns || s != lastSteps {
-				lastRuns, lastSteps, lastChange = r, s, time.Now()
+			if r, s := sim.Progress(); r+ticks.Load() != lastRuns || s != lastSteps {
+				lastRuns, lastSteps, lastChange = r+ticks.Load(), s, time.Now()
 			}
 			if time.Duration(time.Now().UnixNano()-caseStart.Load()) > caseLimit {
 				if time.Since(lastChange) < 3*time.Second {
